@@ -31,7 +31,7 @@ PROPS = 'EdbVerif/Props/C12.lean'
 GEN_TABLE_THEOREMS = 6
 REQUIRED = [
     'EdbVerif.C12.common_lub', 'EdbVerif.C12.common_lub_plain', 'EdbVerif.C12.common_value_sound',
-    'EdbVerif.C12.common_same_base', 'EdbVerif.C12.common_set_order_irrelevant',
+    'EdbVerif.C12.common_same_base', 'EdbVerif.C12.tuple_arity', 'EdbVerif.C12.common_set_order_irrelevant',
     'EdbVerif.C12.castDist_shortest_path',
     'EdbVerif.C12.resolve_det',
     'EdbVerif.C12.numeric_table', 'EdbVerif.C12.arith_overloads_closed', 'EdbVerif.C12.C12_sound_partial',
@@ -109,6 +109,10 @@ def ty_enc(t) -> str:
         return 'A ' + ty_enc(t[1])
     if k == 'T':
         return f'T {len(t[1])}' + ''.join(' ' + ty_enc(x) for x in t[1])
+    if k == 'N':
+        # the Lean model has unnamed tuples only: element names are ERASED for the model (they are
+        # checked on the real side: descriptor vs stype, operand-castability oracle, value oracle)
+        return f'T {len(t[1])}' + ''.join(' ' + ty_enc(x) for _, x in t[1])
     raise ValueError(t)
 
 
@@ -131,7 +135,21 @@ def ty_ql(t) -> str:
         return f'array<{ty_ql(t[1])}>'
     if k == 'T':
         return 'tuple<' + ', '.join(ty_ql(x) for x in t[1]) + '>'
+    if k == 'N':
+        return 'tuple<' + ', '.join(f'{n}: {ty_ql(x)}' for n, x in t[1]) + '>'
     raise ValueError(t)
+
+
+def ty_show(t) -> str:
+    """full display (with tuple element names) for reports"""
+    k = t[0]
+    if k == 'N':
+        return 'tuple<' + ', '.join(f'{n}: {ty_show(x)}' for n, x in t[1]) + '>'
+    if k == 'T':
+        return 'tuple<' + ', '.join(ty_show(x) for x in t[1]) + '>'
+    if k == 'A':
+        return f'array<{ty_show(t[1])}>'
+    return ty_ql(t)
 
 
 # messages of the rejections that are typing decisions (everything else a query can be rejected for
@@ -151,7 +169,7 @@ def real_ty(t, schema, gen):
     from edb.schema import types as s_types, scalars as s_scalars, objtypes as s_objtypes
     if isinstance(t, s_types.Tuple):
         if t.is_named(schema):
-            raise Unsupported('named tuple')
+            return ('N', [(n, real_ty(x, schema, gen)) for n, x in t.iter_subtypes(schema)])
         return ('T', [real_ty(x, schema, gen) for x in t.get_subtypes(schema)])
     if isinstance(t, s_types.Array):
         return ('A', real_ty(t.get_element_type(schema), schema, gen))
@@ -182,6 +200,8 @@ def desc_ty(d, gen):
         return ('O', OBJ.index(n[9:])), els
     if isinstance(d, sertypes.TupleDesc):
         return ('T', [desc_ty(x, gen)[0] for x in d.fields]), None
+    if isinstance(d, sertypes.NamedTupleDesc):
+        return ('N', [(n, desc_ty(x, gen)[0]) for n, x in d.fields.items()]), None
     if isinstance(d, sertypes.ArrayDesc):
         return ('A', desc_ty(d.subtype, gen)[0]), None
     if isinstance(d, (sertypes.BaseScalarDesc, sertypes.EnumDesc)):
@@ -216,6 +236,8 @@ def q_enc(q) -> str:
         return 'em ' + ty_enc(q[1])
     if k in ('tu', 'ar'):
         return f'{k} {len(q[1])}' + ''.join(' ' + q_enc(x) for x in q[1])
+    if k == 'nt':       # named tuple literal: names erased for the model
+        return f'tu {len(q[1])}' + ''.join(' ' + q_enc(x) for _, x in q[1])
     if k == 'set':
         return q_enc(balance(q[1]))
     if k == 'ca':
@@ -280,6 +302,8 @@ def q_ql(q, names=()) -> str:
     if k == 'tu':
         xs = [q_ql(x, names) for x in q[1]]
         return '(' + ', '.join(xs) + (',)' if len(xs) == 1 else ')')
+    if k == 'nt':
+        return '(' + ', '.join(f'{n} := {q_ql(x, names)}' for n, x in q[1]) + ')'
     if k == 'ar':
         return '[' + ', '.join(q_ql(x, names) for x in q[1]) + ']'
     if k == 'set':
@@ -720,6 +744,60 @@ def user_scalar_queries():
     return out
 
 
+def tuple_queries():
+    """Every polymorphic context x ordered pairs of tuple types that differ only in ARITY (prefix), only
+    in element NAMES (named / differently named / unnamed), or both — also nested in arrays and tuples.
+    Returns (query, meta): meta = (operand queries, where in the result type the operands' common type
+    sits) for the operand-castability oracle, evaluated with the REAL `implicitly_castable_to`."""
+    X = ('va', 0)
+    n64, f64, n32 = ('pa', X, 3, 'n64'), ('pa', X, 5, 'f64'), ('pa', X, 2, 'n32')
+    flag = ('pa', X, 8, 'flag')
+    arity = [('tu', [('li', 1), ('li', 2)]), ('tu', [('li', 1), ('li', 2), ('li', 3)]),
+             ('tu', [n64, ('li', 2)]), ('tu', [f64, f64]), ('tu', [('lf', 15, 9), ('lf', 25, 9), ('lf', 35, 9)]),
+             ('tu', [('li', 1)]), ('tu', [n32, ('li', 0)]), ('tu', [n64, n64, n64]),
+             ('em', ('T', [('S', 'int64'), ('S', 'int64')]))]
+    named = [('nt', [('a', ('li', 1)), ('b', ('li', 2))]), ('nt', [('c', ('li', 3)), ('d', ('li', 4))]),
+             ('nt', [('a', n64), ('b', ('li', 5))]), ('tu', [('li', 7), ('li', 8)]),
+             ('nt', [('a', n32), ('b', ('li', 0))]), ('nt', [('b', ('li', 1)), ('a', ('li', 2))]),
+             ('em', ('N', [('a', ('S', 'int64')), ('b', ('S', 'int64'))]))]
+    both = [('nt', [('a', ('li', 1)), ('b', ('li', 2)), ('c', ('li', 3))]), ('nt', [('c', n32)]),
+            ('nt', [('a', ('li', 1)), ('b', ('li', 2))]), ('tu', [('li', 1), ('li', 2), ('li', 3)])]
+    out = []
+
+    def ctxs(a, b):
+        sab = ('set', [a, b])
+        return [
+            (('ca', 'op_coalesce', [a, b]), [a, b], 'R'),
+            (('ca', 'op_if', [a, flag, b]), [a, b], 'R'),
+            (('ca', 'op_union', [a, b]), [a, b], 'R'),
+            (sab, [a, b], 'R'),
+            (('ca', 'op_distinct', [sab]), [a, b], 'R'),
+            (('ar', [a, b]), [a, b], 'elem'),
+            (('ca', 'op_concat', [('ar', [a]), ('ar', [b])]), [a, b], 'elem'),
+            (('ca', 'fn_array_agg', [sab]), [a, b], 'elem'),
+            (('ca', 'fn_min', [sab]), [a, b], 'R'),
+            (('tu', [sab, ('li', 0)]), [a, b], 'first'),
+            (('ar', [sab]), [a, b], 'elem'),
+            (('ca', 'op_coalesce', [('tu', [a, ('li', 0)]), ('tu', [b, ('li', 0)])]),
+             [('tu', [a, ('li', 0)]), ('tu', [b, ('li', 0)])], 'R'),
+            (('ca', 'op_coalesce', [('ar', [a]), ('ar', [b])]), [('ar', [a]), ('ar', [b])], 'R'),
+            (('ca', 'op_union', [('ar', [a]), ('ar', [b])]), [('ar', [a]), ('ar', [b])], 'R'),
+            (('ca', 'op_eq', [a, b]), [a, b], 'bool'),
+            (('ca', 'op_ne', [a, b]), [a, b], 'bool'),
+            (('ca', 'op_opteq', [a, b]), [a, b], 'bool'),
+            (('ca', 'op_lt', [a, b]), [a, b], 'bool'),
+            (('ca', 'op_in', [a, ('set', [b, b])]), [a, b], 'bool'),
+        ]
+    for pool in (arity, named, both):
+        for a in pool:
+            for b in pool:
+                if a == b:
+                    continue
+                for body, ops, where in ctxs(a, b):
+                    out.append((('fo', ('ob', 0), body), ([('fo', ('ob', 0), o) for o in ops], where)))
+    return out
+
+
 def fix_arity(q):
     """`op_distinct` is unary: the generator's anyq builds it with two operands"""
     k = q[0]
@@ -730,6 +808,8 @@ def fix_arity(q):
         return ('ca', q[1], args)
     if k in ('tu', 'ar', 'set'):
         return (k, [fix_arity(x) for x in q[1]])
+    if k == 'nt':
+        return (k, [(n, fix_arity(x)) for n, x in q[1]])
     if k == 'cs':
         return ('cs', q[1], fix_arity(q[2]))
     if k in ('fo', 'fi'):
@@ -743,6 +823,8 @@ def fix_arity(q):
 
 def size(q) -> int:
     k = q[0]
+    if k == 'nt':
+        return 1 + sum(size(x) for _, x in q[1])
     if k in ('tu', 'ar', 'set'):
         return 1 + sum(size(x) for x in q[1])
     if k == 'ca':
@@ -761,6 +843,10 @@ def size(q) -> int:
 def constructs(q, acc):
     k = q[0]
     acc[k if k != 'ca' else q[1]] = acc.get(k if k != 'ca' else q[1], 0) + 1
+    if k == 'nt':
+        for _, x in q[1]:
+            constructs(x, acc)
+        return acc
     for x in (q[1] if k in ('tu', 'ar', 'set') else q[2] if k in ('ca', 'sh') else []):
         constructs(x, acc)
     if k in ('fo', 'fi'):
@@ -786,6 +872,8 @@ def toy_ok(q) -> bool:
         return all(toy_ok(x) for x in q[2])
     if k in ('tu', 'ar', 'set'):
         return all(toy_ok(x) for x in q[1])
+    if k == 'nt':
+        return all(toy_ok(x) for _, x in q[1])
     if k in ('fo', 'fi'):
         return toy_ok(q[1]) and toy_ok(q[2])
     if k == 'pa':
@@ -797,12 +885,16 @@ def uses_big_div(q) -> bool:
     """`/`, `^`, mean with a bigint operand: the toy model computes in Python int/float where
     EdgeDB computes in decimal"""
     k = q[0]
+    if k == 'nt':
+        return any(uses_big_div(x) for _, x in q[1])
     sub = (q[1] if k in ('tu', 'ar', 'set') else q[2] if k == 'ca' else
            [q[1], q[2]] if k in ('fo', 'fi') else [q[2]] if k == 'cs' else [q[1]] if k == 'pa' else [])
 
     def has_big(x):
         if x[0] == 'pa' and x[3] == 'big':
             return True
+        if x[0] == 'nt':
+            return any(has_big(y) for _, y in x[1])
         s = (x[1] if x[0] in ('tu', 'ar', 'set') else x[2] if x[0] == 'ca' else
              [x[1], x[2]] if x[0] in ('fo', 'fi') else [x[2]] if x[0] == 'cs' else [x[1]] if x[0] == 'pa' else [])
         return any(has_big(y) for y in s)
@@ -910,8 +1002,21 @@ def inhabits(v, t, model, db) -> bool:
             return isinstance(v, uuid.UUID)
         return False
     if k == 'T':
+        # arity is part of the type: a 3-tuple does not inhabit tuple<int64, int64>.  The toy model
+        # applies no implicit casts, so a named tuple value (a dict) is accepted under an unnamed type
+        # (named -> unnamed is an implicit cast), element-wise in order.
+        vs = list(v.values()) if isinstance(v, dict) else v
+        return isinstance(vs, (tuple, list)) and isinstance(v, (tuple, dict)) and len(vs) == len(t[1]) and all(
+            inhabits(x, y, model, db) for x, y in zip(vs, t[1]))
+    if k == 'N':
+        # element names are part of the type: the toy model represents a named tuple as a dict; a dict
+        # with OTHER names does not inhabit it (named -> differently named is not an implicit cast), a
+        # plain tuple of the right arity does (unnamed -> named is)
+        if isinstance(v, dict):
+            return list(v.keys()) == [n for n, _ in t[1]] and all(
+                inhabits(v[n], y, model, db) for n, y in t[1])
         return isinstance(v, tuple) and len(v) == len(t[1]) and all(
-            inhabits(x, y, model, db) for x, y in zip(v, t[1]))
+            inhabits(x, y, model, db) for x, (_, y) in zip(v, t[1]))
     if k == 'A':
         return isinstance(v, list) and all(inhabits(x, t[1], model, db) for x in v)
     if k == 'O':
@@ -924,6 +1029,8 @@ def pykind(v, model) -> str:
         return 'bool'
     if isinstance(v, tuple):
         return '(' + ','.join(pykind(x, model) for x in v) + ')'
+    if isinstance(v, dict):
+        return '(' + ','.join(f'{k_}:={pykind(x, model)}' for k_, x in v.items()) + ')'
     if isinstance(v, list):
         return '[' + ','.join(sorted({pykind(x, model) for x in v})) + ']'
     if isinstance(v, model.Obj):
@@ -1080,11 +1187,13 @@ def run(ctx: core.Ctx):
         if t[0] == 'A':
             schema, e = mk_real(schema, t[1])
             return s_types.Array.create(schema, element_type=e, dimensions=[-1])
+        if t[0] == 'O':
+            return schema, schema.get('default::' + OBJ[t[1]])
         els = {}
         for i, x in enumerate(t[1]):
-            schema, e = mk_real(schema, x)
-            els[str(i)] = e
-        return s_types.Tuple.create(schema, element_types=els, named=False)
+            schema, e = mk_real(schema, x[1] if t[0] == 'N' else x)
+            els[x[0] if t[0] == 'N' else str(i)] = e
+        return s_types.Tuple.create(schema, element_types=els, named=(t[0] == 'N'))
 
     n_coll = 0
     for _ in range(ctx.budget(250, 5000)):
@@ -1183,24 +1292,36 @@ def run(ctx: core.Ctx):
     # ---------------------------------------------------------------- L2b: generated queries
     g = Gen(rng, [(gen['ident'][a], gen['ident'][b]) for a, b in gen['edges']])
     queries = []
+    qmeta = {}      # EdgeQL text of a directed tuple query -> (operand queries, position of their common type)
     if ctx.replay:
         rp = json.load(open(ctx.replay))
         for f in rp['failures']:
             d = f.get('detail')
             if isinstance(d, dict) and 'query' in d:
                 queries.append(_untuple(d['query']))
+                if 'meta' in d:
+                    ops_, where_ = d['meta']
+                    qmeta[q_ql(queries[-1])] = ([_untuple(o) for o in ops_], where_)
     else:
         seen = set()
         dq = directed_queries()
         uq = user_scalar_queries()
         for q in (dq if not ctx.quick() else rng.sample(dq, 120)) + \
-                (uq if not ctx.quick() else rng.sample(uq, 360)):
+                (uq if not ctx.quick() else rng.sample(uq, 300)):
             if q_enc(q) in seen:
                 continue
             seen.add(q_enc(q))
             queries.append(q)
+        tq = tuple_queries()
+        for q, m in (tq if not ctx.quick() else rng.sample(tq, 260)):
+            text_ = q_ql(q)
+            if text_ in qmeta:
+                continue
+            qmeta[text_] = m
+            seen.add(q_enc(q))
+            queries.append(q)
         n_directed = len(queries)
-        target = n_directed + ctx.budget(700, 10000)
+        target = n_directed + ctx.budget(500, 10000)
         tries = 0
         while len(queries) < target and tries < target * 20:
             tries += 1
@@ -1219,7 +1340,8 @@ def run(ctx: core.Ctx):
     tdb = toy_db(model)
     n_q = {'ok': 0, 'none': 0, 'unsupported': 0, 'crash': 0, 'rejected-other': 0}
     other_rej = {}
-    n_desc = n_toy = n_toy_vals = n_shape = 0
+    n_desc = n_toy = n_toy_vals = n_shape = n_operand_checks = 0
+    sql_crashes = {}
     toy_skipped = {'not-toy-evaluable': 0, 'toy-error': 0, 'bigint-division': 0}
     kinds_hist = {}
     cons_hist = {}
@@ -1242,6 +1364,47 @@ def run(ctx: core.Ctx):
         if r[0] != 'ok':
             continue
         rt = r[1]
+        if q_ql(q) in qmeta:
+            # --- operand oracle on the REAL code: the compiler accepted a polymorphic context; every operand
+            # type must be implicitly castable (real `implicitly_castable_to`) to the type the operands were
+            # unified to — arity and element names included; for bool-valued contexts the operands must
+            # have a common type (real `find_common_implicitly_castable_type`)
+            ops, where = qmeta[q_ql(q)]
+            n_operand_checks += 1
+            try:
+                target = (rt if where == 'R' else rt[1] if where == 'elem' else
+                          (rt[1][0][1] if rt[0] == 'N' else rt[1][0]) if where == 'first' else None)
+                otys = []
+                for o in ops:
+                    ro = compile_ty('select ' + q_ql(o))
+                    if ro[0] != 'ok':
+                        raise Unsupported('operand does not compile alone')
+                    otys.append(ro[1])
+                s2 = sch
+                robjs = []
+                for t_ in otys:
+                    s2, o_ = mk_real(s2, t_)
+                    robjs.append(o_)
+                if where == 'bool':
+                    s3, ct = robjs[0].find_common_implicitly_castable_type(robjs[1], s2)
+                    if ct is None:
+                        oracle_fail.append((f'oracle:operands-no-common:{text}',
+                                            'accepted although the operand types have no common type',
+                                            {'query': q, 'text': text, 'meta': [ops, where],
+                                             'operand_types': [ty_show(t_) for t_ in otys]}))
+                else:
+                    s2, T_ = mk_real(s2, target)
+                    for t_, o_ in zip(otys, robjs):
+                        if not o_.implicitly_castable_to(T_, s2):
+                            oracle_fail.append((f'oracle:operand-not-castable:{text}',
+                                                'an operand type is not implicitly castable to the reported result type '
+                                                '(tuple arity / element names): its values do not belong to the inferred type',
+                                                {'query': q, 'text': text, 'meta': [ops, where],
+                                                 'operand_type': ty_show(t_),
+                                                 'unified_type': ty_show(target), 'stype': ty_show(rt)}))
+                            break
+            except Unsupported:
+                pass
         add('eval ' + q_enc(q), None, 'q-eval', (q, text, rt))
         # --- descriptor (the server compiler also generates SQL, ~0.1 s per query: every shape, and a
         # seeded third of the other queries)
@@ -1258,7 +1421,7 @@ def run(ctx: core.Ctx):
             if dt != rt:
                 oracle_fail.append((f'oracle:descriptor:{q_enc(q)}',
                                     'type in the output descriptor differs from the inferred type',
-                                    {'query': q, 'text': text, 'stype': ty_enc(rt), 'descriptor': ty_enc(dt)}))
+                                    {'query': q, 'text': text, 'stype': ty_show(rt), 'descriptor': ty_show(dt)}))
             if q[0] == 'sh' and els is not None:
                 n_shape += 1
                 want = {f'e{i}': None for i in range(len(q[2]))}
@@ -1270,6 +1433,11 @@ def run(ctx: core.Ctx):
                     'q-shape', (q, text))
         except Unsupported:
             pass
+        except edb_errors.InternalServerError as e:
+            # a crash of the SQL generator, not a typing matter (C13's area): tallied and reported in the notes
+            c_ = e.__cause__ or e.__context__
+            k_ = type(c_).__name__ if c_ is not None else 'InternalServerError'
+            sql_crashes.setdefault(k_, text)
         except Exception as e:
             oracle_fail.append((f'oracle:descriptor-error:{q_enc(q)}', 'server compiler failed on a query the compiler typed',
                                 {'query': q, 'text': text, 'error': type(e).__name__ + ': ' + str(e)[:200]}))
@@ -1296,7 +1464,7 @@ def run(ctx: core.Ctx):
             if not inhabits(v, rt, model, tdb):
                 oracle_fail.append((f'oracle:value:{q_enc(q)}',
                                     'a value of the reference evaluator does not inhabit the inferred type',
-                                    {'query': q, 'text': text, 'stype': ty_enc(rt), 'value_kind': kd}))
+                                    {'query': q, 'text': text, 'stype': ty_show(rt), 'value_kind': kd}))
                 break
         q_info.append((text, ty_enc(rt)))
 
@@ -1375,6 +1543,8 @@ def run(ctx: core.Ctx):
         'queries': len(queries), 'directed_mixed_type_queries': (0 if ctx.replay else n_directed),
         'query_outcomes_real': n_q, 'rejected_for_non_typing_reasons': other_rej,
         'descriptors_compared': n_desc, 'shape_descriptors_compared': n_shape,
+        'tuple_operand_castability_checks': n_operand_checks,
+        'sql_generator_internal_errors_on_typed_queries': sql_crashes,
         'toy_evaluations': n_toy, 'toy_values_classified': n_toy_vals, 'toy_skipped': toy_skipped,
         'toy_value_kinds': dict(sorted(kinds_hist.items(), key=lambda kv: -kv[1])[:25]),
         'construct_histogram': dict(sorted(cons_hist.items(), key=lambda kv: -kv[1])),
@@ -1411,7 +1581,8 @@ def _untuple(x):
     """JSON round trip turns tuples into lists: rebuild the generator's tuple-shaped AST"""
     if isinstance(x, list):
         if x and isinstance(x[0], str) and x[0] in ('li', 'ln', 'lf', 'ld', 'ls', 'lb', 'em', 'tu', 'ar', 'set', 'ca',
-                                                    'cs', 'va', 'fo', 'fi', 'ob', 'pa', 'sh', 'S', 'O', 'A', 'T'):
+                                                    'cs', 'va', 'fo', 'fi', 'ob', 'pa', 'sh', 'S', 'O', 'A', 'T',
+                                                    'nt', 'U', 'N'):
             return tuple(_untuple(y) for y in x)
         return [_untuple(y) for y in x]
     return x
